@@ -42,7 +42,7 @@ REAL_STUB = {
 EXPECTED_PROBES = ["probe_frame_fragmented", "probe_frames_coalesced", "probe_undefined_transported", "probe_proxy_call", "probe_dict_set_get",
                    "probe_remote_fn_definition", "probe_burst", "probe_big_response", "probe_nested_list", "probe_dictionary_value", "probe_server_error_last",
                    "probe_same_text_after_remote_set", "probe_unencodable_request_in_burst", "probe_equal_text_of_different_kinds",
-                   "probe_second_connection_reads_during_a_call", "probe_response_above_16MiB",
+                   "probe_second_connection_reads_during_a_call", "probe_answer_is_a_snapshot_while_another_connection_amends_the_value", "probe_response_above_16MiB",
                    "probe_remote_definition_of_a_function_used_locally_first", "probe_chain_backend", "probe_unbound_symbol", "net_stall",
                    "probe_client_connects_during_a_call", "probe_server_calls_client", "probe_second_handle_by_address_closed"]
 WALL_CAP = {"quick": 400, "thorough": 3600}
@@ -108,7 +108,16 @@ def scenario(ch, cfg):
                                                        "slow::{[gv];gv::x+1;yieldfn(0);gv}",
                                                        # a connection callback (it runs whenever a client connects) and a function that
                                                        # reads its parameter after it has taken a while
-                                                       "ocnt::0", "cl::0", ".srv.o::{[oh];oh::x;:[ocnt=0;cl::x;0];ocnt::ocnt+1;yieldfn(0);oh}", "slowx::{[gv];gv::x+1;yieldfn(0);gv+x}"]
+                                                       "ocnt::0", "cl::0", ".srv.o::{[oh];oh::x;:[ocnt=0;cl::x;0];ocnt::ocnt+1;yieldfn(0);oh}", "slowx::{[gv];gv::x+1;yieldfn(0);gv+x}",
+                                                       # a dictionary the server keeps (amended in place by requests) and a function that answers it
+                                                       "gdict:::{[1 10] [2 20]}", "snapd::{markfn(x);yieldfn(0);gdict}"]
+    marks = {"n": 0}
+
+    def markfn(x):
+        marks["n"] += 1
+        return 0
+    env.server.klong["markfn"] = markfn
+    twin["markfn"] = lambda x: 0
 
     def yieldfn(x):
         # a server-side function that takes a while (the other loops and threads run meanwhile)
@@ -209,7 +218,7 @@ def scenario(ch, cfg):
         cl(f"f::.cli({PORT})")
         for i in range(nops):
             last = i == nops - 1
-            k = ch.weighted([6, 4, 4, 4, 2, 2, 2, 2, 2, 1 if last else 0, 2, 1, 1, 1, 2, 1], "op")
+            k = ch.weighted([6, 4, 4, 4, 2, 2, 2, 2, 2, 1 if last else 0, 2, 1, 1, 1, 2, 1, 1], "op")
             if k == 0:      # f("expr")
                 m = ch.weighted([5, 2, 2, 1, 1, 1], "expr")
                 if m == 0:
@@ -480,6 +489,38 @@ def scenario(ch, cfg):
                 if res2.get("v") != want2:
                     viol("C13:value-mismatch:dict-get-during-another-call", f"second connection d?:gv while f(:slow,42) was running on the server gave "
                          f"{str(res2.get('v'))[:100]}; the server's gv is {str(want2)[:100]}")
+            elif k == 16:
+                # the answer is what the evaluation yielded.  This client asks for a dictionary the server keeps; once that request
+                # HAS BEEN evaluated (the function it calls says so) another connection amends the dictionary in place: the later
+                # request must not show in the earlier one's answer
+                stats["probe_answer_is_a_snapshot_while_another_connection_amends_the_value"] += 1
+                if "D" not in state:
+                    from sim.klnode import Node
+                    state["D"] = Node(w, net, "D")
+                    state["D"].klong(f"f::.cli({PORT})")
+                    state["D"].klong("d::.clid(f)")
+                D = state["D"]
+                res2 = {}
+                seen = marks["n"]
+                amend = f"gdict,[{700 + i} {i}]"
+
+                def amender():
+                    w.block_until(lambda: marks["n"] > seen, "amender.wait")
+                    try:
+                        res2["v"] = ("ok", canon(D.klong(f'f("{amend}")')))
+                    except BaseException as e:   # noqa
+                        if isinstance(e, SystemExit):
+                            raise
+                        res2["v"] = ("exc", type(e).__name__)
+                g = w.spawn(f"amender{i}", amender)
+                both("answer-shows-a-later-request", 'f("snapd(0)")', lambda: twin("snapd(0)"))
+                if marks["n"] == seen:
+                    marks["n"] += 1         # the request never got evaluated (reported above): let the helper finish
+                w.block_until(lambda: g.done, "amender.join")
+                want2 = ("ok", canon(twin(amend)))
+                if res2.get("v") != want2 and not violations:
+                    viol("C13:value-mismatch:amend-from-second-connection", f"second connection f(\"{amend}\") gave {str(res2.get('v'))[:120]}; "
+                         f"the server interpreter gives {str(want2)[:120]}")
             elif k == 15:   # a second handle opened by address in the same client, used and closed: every handle is a connection of its own
                 stats["probe_second_handle_by_address_closed"] += 1
                 both("second-handle-open", f"g{i}::.cli({PORT});1", lambda: 1)
